@@ -178,11 +178,15 @@ def rekeying(ctx, RA, P) -> None:
                     c = classify_rewrite(kt)
                     loc = f"{rfi.module.relpath}:{sx.line}"
                     sw = [a for a, t in b.conds().items() if t and ".startswith(" in a]
+                    # the loop may also run over an eagerly built snapshot that is already filtered by the prefix test
+                    mflt = re.fullmatch(r"\[(\w+) for \1 in self\._wd_for_path(\.keys\(\))? if (\1\.startswith\(.+\))\]", e.text)
+                    if mflt:
+                        sw = sw + [mflt.group(3)]
                     construct = "Inotify.read_events descendant re-key"
                     if c["anchored"] is None:
                         ctx.viol(RA, construct, f"new watch path computed by an unrecognised rewrite `{c['text'][:120]}`", loc)
                         continue
-                    elem_ok = c["x"].startswith("$elem(self._wd_for_path")
+                    elem_ok = c["x"].startswith("$elem(self._wd_for_path") or bool(mflt and c["x"].startswith("$elem([") and "self._wd_for_path" in c["x"])
                     # a = the move source path (what the startswith test anchors), b = the record's new path
                     a_ok = any(c["a"] in s for s in sw)
                     ctx.check(
